@@ -321,6 +321,12 @@ def rescale(img, scale, shape=None, mask=None, order=3, mode='nearest',
         # be real
         mask = np.zeros_like(img).real
         mask[img != 0] = 1
+    else:
+        mask = np.asarray(mask)
+        if not np.issubdtype(mask.dtype, np.inexact):
+            # same for an integer or bool mask (e.g. np.ones_like of an
+            # integer image)
+            mask = mask.astype(float)
 
     if shape is None:
         shape = np.ceil((img.shape[0]*scale, img.shape[1]*scale)).astype(int)
